@@ -336,7 +336,7 @@ Theorem bound_centers_modes geo mode pts : valid_pts pts ->
       end
     else (false, Some (nanmin RO xs, nanmax RO xs), nanmin RO ys, nanmax RO ys).
 Proof.
-  intros (Hne & Hx & Hy). unfold bound_centers, antimeridian_branch.
+  intros (Hne & Hx & Hy). unfold bound_centers, antimeridian_branch. rewrite gen_am_test_char, new_x_corners_char.
   rewrite (map_clean_id fst pts Hx), (map_clean_id snd pts Hy).
   destruct (_ && _ && _); [|reflexivity]. destruct mode; reflexivity.
 Qed.
